@@ -5,7 +5,7 @@ from collections import Counter
 from pyvc.report import Check, run_check, seed
 from pyvc.smt import budget_ms
 from checks import sys_common as SC
-from checks.sys_checks import _t, expected_multiplicity, _cls
+from checks.sys_checks import _t, multiplicity_mismatch, _cls
 from checks.wp_common import run_wp
 from spec import model, runner
 
@@ -85,13 +85,8 @@ def _eval(arg):
     out["n_missing"] = len(L - set(got))
     out["invalid"] = [dict(k) for k in list(set(got) - U)[:1]]
     out["n_invalid"] = len(set(got) - U)
-    dup = None
-    for k, n in got.items():
-        if k in L:
-            want = expected_multiplicity(d, k)
-            if n != want:
-                dup = [dict(k), n, want]
-                break
+    dup = multiplicity_mismatch(d, got, L)
+    dup = list(dup) if dup else None
     out["dup"] = dup
     return out
 
